@@ -64,7 +64,7 @@ func evalPoly(a []*big.Int, x int64) *big.Int {
 	return r
 }
 
-var craftFamilies = []string{"random", "doubling", "cancel", "zero-middle", "equal", "opposite", "tiny", "doubling-chain", "same-share"}
+var craftFamilies = []string{"random", "doubling", "cancel", "zero-middle", "equal", "opposite", "tiny", "doubling-chain", "same-share", "byz-root"}
 
 func runCraft(c *choice.Src, o engine.Opt, out *engine.Out) {
 	var evlog, trace, fp []string
@@ -153,6 +153,26 @@ func runCraft(c *choice.Src, o engine.Opt, out *engine.Out) {
 			}
 		}
 	}
+	// byz-root (Feldman-VSS-Qual only): NOT an honest dealer. The vector commits to a polynomial
+	// with a root at the victim's evaluation point (its public key share is the identity, no
+	// valid private share exists), everybody else gets a correct share, the victim gets none and
+	// the dealer never answers its complaint. Only AGREEMENT is demanded: the honest receivers
+	// leave End() with the same verdict.
+	byzRoot := craftFamilies[fam] == "byz-root" && proto == QUAL && n >= 3
+	victim := -1
+	if byzRoot {
+		victim = c.Choose(n-1, "root.victim")
+		if victim >= d {
+			victim++
+		}
+		xv := big.NewInt(int64(victim + 1))
+		acc := new(big.Int)
+		for i := t; i >= 1; i-- {
+			acc.Add(acc, a[i]).Mul(acc, xv).Mod(acc, curve.R)
+		}
+		a[0] = new(big.Int).Sub(curve.R, acc)
+		a[0].Mod(a[0], curve.R)
+	}
 	// an honest dealer has a_0 != 0 and a_t != 0; and a zero share (probability 2^-255 for a real
 	// dealer) cannot be transported by the protocol: keep the polynomial inside what honest dealers do
 	if a[0].Sign() == 0 {
@@ -161,7 +181,7 @@ func runCraft(c *choice.Src, o engine.Opt, out *engine.Out) {
 	if a[t].Sign() == 0 {
 		a[t].SetInt64(3)
 	}
-	for j := 1; j <= n; j++ {
+	for j := 1; j <= n && !byzRoot; j++ {
 		if evalPoly(a, int64(j)).Sign() == 0 {
 			a[0].Add(a[0], big.NewInt(1)).Mod(a[0], curve.R)
 			if a[0].Sign() == 0 {
@@ -222,7 +242,7 @@ func runCraft(c *choice.Src, o engine.Opt, out *engine.Out) {
 		if i == d {
 			continue
 		}
-		if n > 20 && len(rs) >= 6 && i != int(x-1) && i != n-1 {
+		if n > 20 && len(rs) >= 6 && i != int(x-1) && i != n-1 && i != victim {
 			continue // wide worlds: a handful of receivers incl. the targeted one and the highest index
 		}
 		p := &craftProc{idx: i}
@@ -275,7 +295,10 @@ func runCraft(c *choice.Src, o engine.Opt, out *engine.Out) {
 	}
 	var todo []dl
 	for _, r := range rs {
-		todo = append(todo, dl{r, false}, dl{r, true})
+		todo = append(todo, dl{r, false})
+		if r.idx != victim {
+			todo = append(todo, dl{r, true})
+		}
 	}
 	for len(todo) > 0 {
 		i := c.Choose(len(todo), "deliver")
@@ -320,6 +343,37 @@ func runCraft(c *choice.Src, o engine.Opt, out *engine.Out) {
 		}
 	}
 	out.SimTime["protocol_rounds"] += 3
+	if byzRoot {
+		var verdicts []string
+		for _, r := range rs {
+			var endErr error
+			okc := true
+			func() {
+				defer func() {
+					if rec := recover(); rec != nil {
+						okc = false
+						viol("C09", "nopanic", "panic:craft:"+protoName[proto], "receiver %d End panicked: %v", r.idx, rec)
+					}
+				}()
+				_, _, _, endErr = r.st.End()
+			}()
+			if !okc {
+				return
+			}
+			v := "keys"
+			if endErr != nil {
+				v = "error:" + errClass(endErr)
+			}
+			ev("receiver %d: sends=%d callbacks=%v End -> %s", r.idx, len(r.proc.sends), r.proc.cbs, v)
+			verdicts = append(verdicts, fmt.Sprintf("%d:%s", r.idx, v))
+			if (endErr == nil) != (verdicts[0][len(fmt.Sprint(rs[0].idx))+1:] == "keys") {
+				viol("C07", "agree.outcome", "craft.byz-root.disagree", "Byzantine dealer %d committed to a polynomial with a root at participant %d, gave it no share and never answered: honest receivers disagree on the outcome: %v", d, victim, verdicts)
+				return
+			}
+		}
+		out.Probes["crafted_root_dealing_agreed"]++
+		return
+	}
 	for _, r := range rs {
 		var sk crypto.PrivateKey
 		var gpk crypto.PublicKey
